@@ -411,13 +411,15 @@ func c03Format(r *core.Run) {
 			if callee != nil && callee.Name() == "GetPrimaryKeyOnlyName" && core.RecvNamed(callee) != nil && core.RecvNamed(callee).Obj().Name() == "TableMeta" {
 				pkOrder = true
 			}
-			if callee != nil && strings.HasPrefix(callee.Name(), "WriteString") && len(c.Args) == 1 {
-				if v := core.ConstVal(f.Pkg.TypesInfo, c.Args[0]); v != nil && v.Kind() == constant.String {
-					seps[constant.StringVal(v)] = true
-				}
-			}
 			return true
 		})
+		// what the builder writes into the key text, in order, through the helpers of the package it writes with
+		writes := keyWrites(w, f)
+		for _, kw := range writes {
+			if kw.Const != nil {
+				seps[*kw.Const] = true
+			}
+		}
 		var got []string
 		for s := range seps {
 			got = append(got, s)
@@ -428,9 +430,19 @@ func c03Format(r *core.Run) {
 		r.Check(strings.Join(got, " ") == ", : _", "C03.format", key+" : separators", w.Pos(f.Decl.Pos()), "separators are ':' ',' '_'",
 			"lock-key builder writes the constant separators {"+strings.Join(got, " ")+"}; the coordinator's format is table ':' pk ['_' pk2] {',' row}: the same row would yield a different key text")
 		r.Check(pkOrder, "C03.format", key+" : key order", w.Pos(f.Decl.Pos()), "key order from TableMeta.GetPrimaryKeyOnlyName", "lock-key builder does not take the primary-key order from TableMeta.GetPrimaryKeyOnlyName")
-		c03KeyPartText(r, f, key)
+		c03KeyPartText(r, f, key, writes)
 		// ':' is written after the table name (first two writes)
-		first := firstWrites(f, 2)
+		var first []string
+		for _, kw := range writes {
+			if len(first) == 2 {
+				break
+			}
+			if kw.Const != nil {
+				first = append(first, strconv.Quote(*kw.Const))
+			} else {
+				first = append(first, originVia(f, kw.Fn, kw.Arg, 4))
+			}
+		}
 		r.Check(len(first) == 2 && strings.HasSuffix(first[0], ".TableName") && first[1] == `":"`, "C03.format", key+" : prefix", w.Pos(f.Decl.Pos()), "key starts with table name then ':'",
 			"the key does not start with the table name followed by ':' (first writes: "+strings.Join(first, ", ")+")")
 	}
@@ -1054,74 +1066,151 @@ func abstractChain(o string) string {
 // c03KeyPartText: the text of a key part is fmt's %v of the column value as the row images carry it — taken from
 // an image (ColumnImage.Value), or produced from the scanned value by the very chain of functions that fills the
 // images. A DML statement and a locking read then render the key of one row identically whatever the column type.
-func c03KeyPartText(r *core.Run, f *core.FuncInfo, key string) {
+// keyWrite is one write into the key text: a constant, or the expression Arg written by function Fn (the builder or
+// a helper it writes through, analysed in the builder's context).
+type keyWrite struct {
+	Call  *ast.CallExpr
+	Fn    *core.FuncInfo
+	Arg   ast.Expr // the written text / value expression (for Fprintf: the value; Format holds the verb)
+	Const *string
+	// Format: non-nil when the write formats Arg (fmt.Fprintf(b, format, arg))
+	Format ast.Expr
+}
+
+// keyWrites lists, in the order the recording pass meets them, the writes into an in-memory text buffer done by f
+// and by the helpers of its package it calls (a writer object with methods is analysed in f's context).
+func keyWrites(w *core.World, f *core.FuncInfo) []keyWrite {
+	isBuf := func(t types.Type) bool {
+		if t == nil {
+			return false
+		}
+		if p, ok := t.(*types.Pointer); ok {
+			t = p.Elem()
+		}
+		n, ok := t.(*types.Named)
+		if !ok || n.Obj().Pkg() == nil {
+			return false
+		}
+		q := n.Obj().Pkg().Path() + "." + n.Obj().Name()
+		return q == "strings.Builder" || q == "bytes.Buffer"
+	}
+	res := (&flow.Spec{W: w, Depth: 0, Inline: 3, Classify: func(pkg *packages.Package, call *ast.CallExpr, callee *types.Func) []flow.Tag {
+		if callee == nil {
+			return nil
+		}
+		if sig, ok := callee.Type().(*types.Signature); ok && sig.Recv() != nil && isBuf(sig.Recv().Type()) && strings.HasPrefix(callee.Name(), "Write") && len(call.Args) == 1 {
+			return []flow.Tag{"write"}
+		}
+		if callee.Pkg() != nil && callee.Pkg().Path() == "fmt" && strings.HasPrefix(callee.Name(), "Fprint") && len(call.Args) >= 2 && isBuf(pkg.TypesInfo.TypeOf(call.Args[0])) {
+			return []flow.Tag{"fwrite"}
+		}
+		return nil
+	}}).Analyze(f)
+	var out []keyWrite
+	seen := map[*ast.CallExpr]bool{}
+	for _, cp := range res.Calls {
+		if seen[cp.Call] {
+			continue
+		}
+		seen[cp.Call] = true
+		fn := cp.Fn
+		if fn == nil {
+			fn = f
+		}
+		info := fn.Pkg.TypesInfo
+		kw := keyWrite{Call: cp.Call, Fn: fn}
+		switch {
+		case inSet("write", cp.Tags...):
+			kw.Arg = cp.Call.Args[0]
+		case inSet("fwrite", cp.Tags...) && len(cp.Call.Args) == 3 && cp.Callee.Name() == "Fprintf":
+			kw.Format, kw.Arg = cp.Call.Args[1], cp.Call.Args[2]
+		case inSet("fwrite", cp.Tags...) && len(cp.Call.Args) == 2 && cp.Callee.Name() == "Fprint":
+			kw.Arg = cp.Call.Args[1]
+			kw.Format = kw.Arg // marks "formatted with the default verb"
+		default:
+			kw.Arg = cp.Call.Args[len(cp.Call.Args)-1]
+		}
+		if kw.Format == nil || kw.Format == kw.Arg {
+			if v := core.ConstVal(info, kw.Arg); v != nil {
+				switch v.Kind() {
+				case constant.String:
+					t := constant.StringVal(v)
+					kw.Const = &t
+				case constant.Int:
+					// WriteByte(':') / WriteRune(',')
+					if i, ok := constant.Int64Val(v); ok && i > 0 && i < 0x110000 {
+						t := string(rune(i))
+						kw.Const = &t
+					}
+				}
+			}
+		}
+		out = append(out, kw)
+	}
+	return out
+}
+
+func c03KeyPartText(r *core.Run, f *core.FuncInfo, key string, writes []keyWrite) {
 	w := r.W
-	info := f.Pkg.TypesInfo
 	chains := c03ImageValueChain(w)
 	bad := ""
 	nParts := 0
-	ast.Inspect(f.Decl.Body, func(n ast.Node) bool {
-		c, ok := n.(*ast.CallExpr)
-		if !ok {
-			return true
+	for _, kw := range writes {
+		if kw.Const != nil {
+			continue
 		}
-		callee := core.Callee(info, c)
-		if callee == nil {
-			return true
-		}
+		c := kw.Call
+		info := kw.Fn.Pkg.TypesInfo
 		var val ast.Expr // the value rendered by this write
 		switch {
-		case strings.HasPrefix(callee.Name(), "WriteString") && len(c.Args) == 1:
-			if core.ConstVal(info, c.Args[0]) != nil {
-				return true
+		case kw.Format != nil && kw.Format != kw.Arg:
+			if v := core.ConstVal(info, kw.Format); v == nil || v.Kind() != constant.String || constant.StringVal(v) != "%v" {
+				bad = w.Pos(c.Pos()) + ": a key part is formatted with " + core.ExprString(kw.Format) + ", not %v"
+				continue
 			}
-			if strings.HasSuffix(origin(f, c.Args[0], 3), ".TableName") {
-				return true
+			val = kw.Arg
+		case kw.Format != nil:
+			val = kw.Arg
+		default:
+			if strings.HasSuffix(originVia(f, kw.Fn, kw.Arg, 4), ".TableName") {
+				continue
 			}
-			inner, isCall := ast.Unparen(c.Args[0]).(*ast.CallExpr)
+			inner, isCall := ast.Unparen(kw.Arg).(*ast.CallExpr)
 			if !isCall {
-				bad = w.Pos(c.Pos()) + ": a key part is written as '" + core.ExprString(c.Args[0]) + "', not as fmt %v of the column value"
-				return true
+				bad = w.Pos(c.Pos()) + ": a key part is written as '" + core.ExprString(kw.Arg) + "', not as fmt %v of the column value"
+				continue
 			}
 			g := core.Callee(info, inner)
 			switch {
 			case g != nil && g.Pkg() != nil && g.Pkg().Path() == "fmt" && g.Name() == "Sprintf" && len(inner.Args) == 2:
 				if v := core.ConstVal(info, inner.Args[0]); v == nil || v.Kind() != constant.String || constant.StringVal(v) != "%v" {
 					bad = w.Pos(c.Pos()) + ": a key part is formatted with " + core.ExprString(inner.Args[0]) + ", not %v"
-					return true
+					continue
 				}
 				val = inner.Args[1]
 			case g != nil && g.Pkg() != nil && g.Pkg().Path() == "fmt" && g.Name() == "Sprint" && len(inner.Args) == 1:
 				val = inner.Args[0]
 			default:
 				bad = w.Pos(c.Pos()) + ": a key part is rendered by " + core.ExprString(inner.Fun) + ", not by fmt %v of the column value"
-				return true
+				continue
 			}
-		case callee.Pkg() != nil && callee.Pkg().Path() == "fmt" && callee.Name() == "Fprintf" && len(c.Args) == 3:
-			if v := core.ConstVal(info, c.Args[1]); v == nil || v.Kind() != constant.String || constant.StringVal(v) != "%v" {
-				bad = w.Pos(c.Pos()) + ": a key part is formatted with " + core.ExprString(c.Args[1]) + ", not %v"
-				return true
-			}
-			val = c.Args[2]
-		default:
-			return true
 		}
 		nParts++
-		o := origin(f, val, 6)
+		o := originVia(f, kw.Fn, val, 6)
 		if strings.HasSuffix(o, ".Value") && !strings.Contains(o, "reflect.") {
-			return true // the value of a column image
+			continue // the value of a column image
 		}
 		a := abstractChain(o)
+		matched := false
 		for _, ch := range chains {
 			if a == ch {
-				return true
+				matched = true
 			}
 		}
-		if bad == "" {
+		if !matched && bad == "" {
 			bad = w.Pos(c.Pos()) + ": the key part is the text of " + o + ", which is neither the value of a row image nor the scanned value passed through the chain that fills the images (" + strings.Join(chains, " | ") + ")"
 		}
-		return true
-	})
+	}
 	r.Sites++
 	if nParts == 0 && bad == "" {
 		bad = "no write of a key part found"
